@@ -5,7 +5,7 @@ use super::{Checker, Controller, Rule};
 use crate::base::{BlockType, StatNode, TokenResult};
 use crate::utils;
 use std::convert::TryInto;
-use std::sync::{
+use crate::vsync::{
     atomic::{AtomicI64, Ordering},
     Arc, Weak,
 };
